@@ -1,4 +1,5 @@
 (** C16 -- lemmas: [ProofsAcl] (predicates, ACLs, hops_from_path), [ProofsMatch] (position-set
     matcher = regular language, fuel adequacy), [ProofsParse] (lexer, Pratt parser), [ProofsText]
-    (predicate text form). *)
-From Sci Require Export Policy.ProofsAcl Policy.ProofsMatch Policy.ProofsParse Policy.ProofsText Policy.ProofsOracle.
+    (predicate text form), [ProofsOracle] (run-time oracles = specification), [ProofsPrint] (every
+    pattern has a text form). *)
+From Sci Require Export Policy.ProofsAcl Policy.ProofsMatch Policy.ProofsParse Policy.ProofsText Policy.ProofsOracle Policy.ProofsPrint.
